@@ -216,6 +216,10 @@ def tree():
 def _ser(x):
     if x is None:
         return None
+    if isinstance(x, dict):
+        return [[str(k), _ser(v)] for k, v in sorted(x.items(), key=lambda kv: str(kv[0]))]
+    if isinstance(x, str):
+        return ("str", (), x.encode())
     if isinstance(x, (tuple, list)):
         return [_ser(v) for v in x]
     a = np.asarray(x)
@@ -345,6 +349,22 @@ def _pars_obj(state, model, key):
     return d[(model, key)]
 
 
+def _kernel_fn(kernel, which, pars, cutoff, mono):
+    from sasmodels import direct_model
+    if which == "Iq":
+        return lambda: direct_model.call_kernel(kernel, pars, cutoff=cutoff, mono=mono)
+    if which == "Fq":
+        return lambda: direct_model.call_Fq(kernel, pars, cutoff=cutoff, mono=mono)
+    if which == "IqR":
+        # composite kernels: the value and the lazily evaluated intermediates
+        def both():
+            y = direct_model.call_kernel(kernel, pars, cutoff=cutoff, mono=mono)
+            lazy = getattr(kernel, "results", None)
+            return [y, lazy() if callable(lazy) else None]
+        return both
+    raise ValueError(which)
+
+
 def child_init(cache_dir):
     def init(state):
         import sys
@@ -366,10 +386,7 @@ def eval_request(state, req):
         qv = _q(req["q"])
         kernel = model.make_kernel(qv)
         pars = dict(PARS[req["model"]][req["pars"]])
-        if req["fn"] == "Iq":
-            fn = lambda: direct_model.call_kernel(kernel, pars, cutoff=req["cutoff"], mono=req["mono"])
-        else:
-            fn = lambda: direct_model.call_Fq(kernel, pars, cutoff=req["cutoff"], mono=req["mono"])
+        fn = _kernel_fn(kernel, req["fn"], pars, req["cutoff"], req["mono"])
         return _evaluate(state, fn, [pars] + qv)
     if kind == "direct":
         model = core.load_model(MODELS[req["model"]], dtype=req["dtype"], platform="dll")
@@ -418,10 +435,7 @@ def child_handler(state, cmd):
         elif kind == "call":
             kernel, qv = objs[op["k"]]
             pars = _pars_obj(state, op["model"], op["pars"])
-            if op["fn"] == "Iq":
-                fn = lambda: direct_model.call_kernel(kernel, pars, cutoff=op["cutoff"], mono=op["mono"])
-            else:
-                fn = lambda: direct_model.call_Fq(kernel, pars, cutoff=op["cutoff"], mono=op["mono"])
+            fn = _kernel_fn(kernel, op["fn"], pars, op["cutoff"], op["mono"])
             return _evaluate(state, fn, [pars] + qv)
         elif kind == "release_kernel":
             objs[op["k"]][0].release()
@@ -525,9 +539,13 @@ def _short(res):
         def first(x):
             if x is None:
                 return None
-            if isinstance(x, list) and x and not isinstance(x[0], str):
+            if isinstance(x, str):
+                return x
+            if isinstance(x, list):
                 return [first(v) for v in x]
             dtype, shape, data = x
+            if dtype == "str":
+                return data.decode()
             a = np.frombuffer(data, dtype=dtype)
             return [float(v) for v in a[:3]]
         return ["ok", first(r[1])]
@@ -723,6 +741,8 @@ def gen_history(w, n_ops):
             keys = [x for x in keys if x != "pd4"]
         pars = w.choice(keys)
         fn = "Fq" if (model in FQ_MODELS and w.random() < 0.3) else "Iq"
+        if model in ("sphere@hardsphere", "sphere+cylinder") and w.random() < 0.5:
+            fn = "IqR"
         ops.append({"op": "call", "k": k["id"], "model": model, "fn": fn, "pars": pars,
                     "cutoff": w.choice(CUTOFFS), "mono": w.random() < 0.1})
         if w.random() < 0.25:
